@@ -61,7 +61,9 @@ async def build(case, proc):
     from vlib import rig as vrig
     vrig.seed_entropy(case['seed'])
     classic = proc in ('classic-connect', 'classic-disconnect', 'rfcomm-open', 'sdp-query')
-    rg = vrig.Rig(2, seed=case['seed'], max_delay=0, classic=classic)
+    # VERIF_SEED selects the delay schedule (0: none, 1, 2: up to that many loop turns per
+    # hop) and, in the quick tier, which message indices are sampled
+    rg = vrig.Rig(2, seed=case['seed'], max_delay=(case['seed'] // 1000003) % 3, classic=classic)
     d0, d1 = rg.devices
     ctx = {'rg': rg}
     if proc.startswith('gatt'):
@@ -359,8 +361,8 @@ def run_case(case, r: R):
         # keep the first messages (where procedures are most fragile) and spread the rest
         head = pts[:case['max_points'] // 2]
         rest = pts[case['max_points'] // 2:]
-        step = max(1, len(rest) // (case['max_points'] - len(head)))
-        pts = head + rest[::step][:case['max_points'] - len(head)]
+        rng = random.Random(case['seed'])
+        pts = head + sorted(rng.sample(rest, case['max_points'] - len(head)))
     for k in pts:
         try:
             vloop.run(scenario(case, r, proc, cut, k))
